@@ -26,10 +26,14 @@ Range0(n) == [i \in 1 .. n |-> i - 1]
 (* TLC evaluates every constant definition at start-up: each candidate set is guarded by the puzzles that use it *)
 FramePuzzles == {"slitherlink"}
 CellLoopPuzzles == {"masyu", "yajilin", "simpleloop", "geradeweg", "castle_wall"}
-LoopsF == IF Puzzle \in FramePuzzles THEN TLCEval(FrameLoops(BH, BW)) ELSE {}      \* loops on the frame of the board's cells
-LoopsCE == IF Puzzle \in CellLoopPuzzles THEN TLCEval(CellLoops(BH, BW)) ELSE {}   \* loops through the cell centres (edge sets)
-(* the same loops as [edges, steps] records: rules are evaluated on the steps, facts exported on the edges *)
-LoopsC == TLCEval({[edges |-> A, steps |-> StepsOf(BH, BW, A)] : A \in LoopsCE})
+(* TLC does not reliably cache zero-arity definitions, so the expensive candidate sets are computed ONCE, in the
+   initial predicate, and carried in the state variable `pre` (never changed) *)
+VARIABLES shard, pidx, pre
+LoopsFInit == IF Puzzle \in FramePuzzles THEN FrameLoops(BH, BW) ELSE {}      \* loops on the frame of the board's cells
+(* loops through the cell centres as [edges, steps] records: rules are evaluated on the steps, facts exported on the edges *)
+LoopsCInit == IF Puzzle \in CellLoopPuzzles THEN {[edges |-> A, steps |-> StepsOf(BH, BW, A)] : A \in CellLoops(BH, BW)} ELSE {}
+LoopsF == pre.loopsF
+LoopsC == pre.loopsC
 MF == Len(Lattice(BH, BW).edges)
 MC == Len(Lattice(BH - 1, BW - 1).edges)
 
@@ -40,12 +44,43 @@ Alpha ==
       [] Puzzle = "yajilin" -> IF N <= 6 THEN <<YEmpty, YEmpty, YUnknown, 100, 101, 200, 201, 300, 301, 400, 401>>
                                ELSE <<YEmpty, YEmpty, YEmpty, YUnknown, 100, 201, 301, 400>>
       [] Puzzle = "simpleloop" -> <<0, 1>>
+      [] Puzzle = "nurikabe" -> <<0, 0, 0, 0, -1, 1, 2, 3, 4>>
+      [] Puzzle = "akari" -> <<-2, -2, -2, -2, -1, 0, 1, 2>>
+      [] Puzzle = "yinyang" -> <<0, 0, 1, 2>>
+      [] Puzzle = "creek" -> IF (BH + 1) * (BW + 1) <= 9 THEN <<-1, -1, 0, 1, 2, 3, 4>>
+                             ELSE IF (BH + 1) * (BW + 1) <= 12 THEN <<-1, -1, 0, 1, 2>> ELSE <<-1, 1, 2>>
+      [] Puzzle = "nurimisaki" -> <<-1, -1, -1, 0, 2, 3>>
+      [] Puzzle = "gokigen" -> IF (BH + 1) * (BW + 1) <= 9 THEN <<-1, -1, 0, 1, 2, 3, 4>>
+                               ELSE IF (BH + 1) * (BW + 1) <= 12 THEN <<-1, -1, 0, 1, 2>> ELSE <<-1, 1, 2>>
+      [] OTHER -> <<0>>
 K == Len(Alpha)
-NCells == N
+PointPuzzles == {"creek", "gokigen"}                      \* clues on the (h+1) x (w+1) lattice points
+RoomPuzzles == {"norinori", "lits", "putteria", "heyawake", "aquarium", "starbattle"}
+NCells == IF Puzzle \in PointPuzzles THEN (BH + 1) * (BW + 1) ELSE N
 Extra == IF Puzzle = "simpleloop" THEN N ELSE 1          \* simpleloop: x every pivot cell
-Total == (K ^ NCells) * Extra
 GridOf(q) == [c \in 1 .. NCells |-> Alpha[((q \div (K ^ (c - 1))) % K) + 1]]
-Prob(q) == IF Puzzle = "simpleloop" THEN <<GridOf(q % (K ^ NCells)), <<q \div (K ^ NCells)>>>> ELSE GridOf(q)
+
+(* room puzzles: problem = a connected room partition (restricted growth string) x a clue vector number *)
+RECURSIVE RGS(_, _)
+MaxOf(s) == IF s = <<>> THEN -1 ELSE LET S == {s[i] : i \in DOMAIN s} IN CHOOSE x \in S : \A y \in S : y <= x
+RGS(n, s) == IF Len(s) = n THEN {s} ELSE UNION {RGS(n, Append(s, b)) : b \in 0 .. MaxOf(s) + 1}
+ConnRgsInit == IF Puzzle \in RoomPuzzles
+               THEN SetToSeq({r \in AllRGS(N) : (\A B \in RoomsOfRgs(r) : ConnCells(BH, BW, B))
+                                                /\ (Puzzle = "starbattle" => MaxOf(r) + 1 = BH)})
+               ELSE <<>>
+ConnRgs == pre.connRgs
+ClueVariants == CASE Puzzle = "heyawake" -> 4 [] Puzzle = "aquarium" -> 6 [] Puzzle = "starbattle" -> 2 [] OTHER -> 1
+HeyaClues(r, j) == [k \in 1 .. MaxOf(r) + 1 |-> <<-1, 0, 1, 2, -1, 1>>[((k + j) % 6) + 1]]
+AquaClues(j) == [i \in 1 .. BH + BW |-> <<-1, 0, 1, 2, -1, 3, 1>>[((i * (j + 1) + j) % 7) + 1]]
+RoomProb(q) == LET r == ConnRgs[(q % Len(ConnRgs)) + 1]  j == q \div Len(ConnRgs) IN
+               CASE Puzzle = "heyawake" -> <<r, HeyaClues(r, j)>>
+                 [] Puzzle = "aquarium" -> <<r, AquaClues(j)>>
+                 [] Puzzle = "starbattle" -> <<r, <<j + 1>>>>
+                 [] OTHER -> <<r, <<>>>>
+
+Total == IF Puzzle \in RoomPuzzles THEN Len(ConnRgs) * ClueVariants ELSE (K ^ NCells) * Extra
+Prob(q) == IF Puzzle = "simpleloop" THEN <<GridOf(q % (K ^ NCells)), <<q \div (K ^ NCells)>>>>
+           ELSE IF Puzzle \in RoomPuzzles THEN RoomProb(q) ELSE GridOf(q)
 
 Solve(p) ==
     CASE Puzzle = "slitherlink" ->
@@ -65,12 +100,39 @@ Solve(p) ==
             LET S == TLCEval({L.edges : L \in {L \in LoopsC : SimpleLoop(BH, BW, p[1], p[2][1], L.steps)}}) IN
             [sat |-> S # {}, facts |-> IF S = {} THEN <<>> ELSE BoolFacts(S, Range1(MC)), nsol |-> Cardinality(S)]
 
-(* which problem numbers this run covers *)
-Picked == TLCEval(IF Count = 0 \/ Count >= Total THEN 0 .. Total - 1
-                  ELSE {((Seed % 1000) * 7919 + j * ((Total \div Count) + 1) + ((j * j) % 97)) % Total : j \in 1 .. Count})
+(* cell-colouring puzzles: the answer is the set of cells whose key is true *)
+CellPuzzles == {"nurikabe", "norinori", "akari", "starbattle", "yinyang", "creek", "heyawake", "lits", "nurimisaki",
+                "putteria", "aquarium", "gokigen"}
+CellSetsInit == IF Puzzle \in CellPuzzles THEN SUBSET Cells(BH, BW) ELSE {}
+CellSets == pre.cellSets
+CellRule(p, S) ==
+    CASE Puzzle = "nurikabe" -> Nurikabe(BH, BW, p, S)
+      [] Puzzle = "norinori" -> Norinori(BH, BW, p[1], S)
+      [] Puzzle = "akari" -> Akari(BH, BW, p, S)
+      [] Puzzle = "starbattle" -> StarBattle(BH, p[2][1], p[1], S)
+      [] Puzzle = "yinyang" -> YinYang(BH, BW, p, S)
+      [] Puzzle = "creek" -> Creek(BH, BW, p, S)
+      [] Puzzle = "heyawake" -> Heyawake(BH, BW, p[1], p[2], S)
+      [] Puzzle = "lits" -> Lits(BH, BW, p[1], S)
+      [] Puzzle = "nurimisaki" -> Nurimisaki(BH, BW, p, S)
+      [] Puzzle = "putteria" -> Putteria(BH, BW, p[1], S)
+      [] Puzzle = "aquarium" -> Aquarium(BH, BW, p[1], SubSeq(p[2], 1, BH), SubSeq(p[2], BH + 1, BH + BW), S)
+      [] Puzzle = "gokigen" -> Gokigen(BH, BW, p, S)
+SolveCells(p) ==
+    LET S == TLCEval({X \in CellSets : CellRule(p, X)}) IN
+    [sat |-> S # {}, facts |-> IF S = {} THEN <<>> ELSE BoolFacts(S, Range0(N)), nsol |-> Cardinality(S)]
 
-VARIABLES shard, i
-Init == shard \in 0 .. 63 /\ i = -1
-Next == i = -1 /\ i' \in {j \in Picked : j % 64 = shard} /\ shard' = shard
-Export == i = -1 \/ PrintT(ToJson([id |-> i, puzzle |-> Puzzle, h |-> BH, w |-> BW, problem |-> Prob(i)] @@ Solve(Prob(i))))
+(* which problem numbers this run covers *)
+Picked == LET T == Total IN
+          IF Count = 0 \/ Count >= T THEN 0 .. T - 1
+          ELSE {((Seed % 1000) * 7919 + j * ((T \div Count) + 1) + ((j * j) % 97)) % T : j \in 1 .. Count}
+
+Init == /\ pre = [loopsF |-> TLCEval(LoopsFInit), loopsC |-> TLCEval(LoopsCInit), connRgs |-> TLCEval(ConnRgsInit),
+                  cellSets |-> TLCEval(CellSetsInit)]
+        /\ shard = -1 /\ pidx = -1
+(* one initial state (so that `pre` is computed once); it fans out into 64 shards, each of which fans out into its problems *)
+Next == \/ (shard = -1 /\ shard' \in 0 .. 63 /\ UNCHANGED <<pidx, pre>>)
+        \/ (shard >= 0 /\ pidx = -1 /\ pidx' \in {j \in Picked : j % 64 = shard} /\ UNCHANGED <<shard, pre>>)
+SolveAny(p) == IF Puzzle \in CellPuzzles THEN SolveCells(p) ELSE Solve(p)
+Export == pidx = -1 \/ PrintT(ToJson([id |-> pidx, puzzle |-> Puzzle, h |-> BH, w |-> BW, problem |-> Prob(pidx)] @@ SolveAny(Prob(pidx))))
 =============================================================================
